@@ -9,6 +9,7 @@ answers `ext` of `strings.ToLower` on non-ASCII names.
 -/
 import Uquic.Proofs.FieldsWriter3
 import Uquic.Proofs.FieldsTrailerWriter
+import Uquic.Proofs.FieldsRespWriter
 
 namespace Uquic.Props.C19
 open Uquic.Model.H3.Fields Uquic.Model.H3.Writer Uquic.Gen.H3Fields Uquic.Proofs.Fields
@@ -284,6 +285,29 @@ example : writeTrailers [(B "X-Checksum", [B "abc"]), (B "Content-Length", [B "3
     (it is not in httpguts' badTrailer list) and rejected by parseTrailers -/
 example : ∃ fs, writeTrailers [(B "Upgrade", [B "x"])] = some fs ∧
     errOf (parseTrailers (fun _ => true) 1000 fs) = some .forbiddenName := ⟨_, rfl, by decide⟩
+
+/-- For every response header map of a valid net/http message (`ValidResponse`: status 100..999, token
+    keys, values without forbidden bytes, one numeric Content-Length at most and — NOT enforced by the
+    writer, finding C19-response-connection-specific — no connection-specific key and TE only
+    "trailers"), what responseWriter.writeHeader emits is a well-formed response section,
+    updateResponseFromHeaders accepts it under every limit ≥ its size, and the status decodes to the same
+    code. (Keys are ASCII; the model of writeHeader is tied by the `resphdr` op.) -/
+theorem response_writer_parser_agree (ext : List Nat → Bool) (st : Int) (hs : List (List Nat × List (List Nat)))
+    (clv : List Nat) (hv : ValidResponse st hs clv) (lim : Int)
+    (hlim : Uquic.Spec.H3Fields.sectionSize (responseFields st hs) ≤ lim) :
+    WellFormed false lim (responseFields st hs) ∧
+    ∃ r, updateResponseFromHeaders ext lim (responseFields st hs) false = .ok r ∧ r.status = st :=
+  response_agree ext st hs clv hv lim hlim
+
+/-- the finding behind `ValidResponse.noconn`: `Connection: close` set by a handler is emitted and the
+    emitted section is rejected -/
+theorem response_connection_witness :
+    errOf (updateResponseFromHeaders (fun _ => true) 100000 (responseFields 200 [(B "Connection", [B "close"])]) false)
+      = some .forbiddenName := by decide
+
+example : responseFields 200 [(B "Content-Type", [B "text/plain"]), (B "Trailer", [B "X-T"]), (B "X-T", [B "v"]),
+      (B "Trailer:X-U", [B "w"])]
+    = [(nStatus, B "200"), (B "content-type", B "text/plain"), (B "trailer", B "X-T")] := by decide
 
 /-! ## 2. reject_maps_to_error -/
 
